@@ -669,6 +669,7 @@ matrix * create_indexlist(int_t dim, PyObject *A)
   if (PyInt_Check(A)) {
     i = PyInt_AS_LONG(A);
 #endif
+    if (i == -1 && PyErr_Occurred()) return NULL;
     if (OUT_RNG(i,dim)) PY_ERR(PyExc_IndexError, "index out of range");
 
     if ((x = Matrix_New(1,1,INT))) MAT_BUFI(x)[0] = i;
@@ -729,6 +730,7 @@ matrix_subscr(matrix* self, PyObject* args)
   if (PyInt_Check(args)) {
     int_t i = PyInt_AS_LONG(args);
 #endif
+    if (i == -1 && PyErr_Occurred()) return NULL;
 
     if (OUT_RNG(i,MAT_LGT(self)))
       PY_ERR(PyExc_IndexError, "index out of range");
@@ -760,11 +762,12 @@ matrix_subscr(matrix* self, PyObject* args)
   /* handle normal subscripts (two integers) separately */
 #if PY_MAJOR_VERSION >= 3
   if (PyLong_Check(argI) && PyLong_Check(argJ)) {
-    int i = PyLong_AS_LONG(argI), j = PyLong_AS_LONG(argJ);
+    int_t i = PyLong_AS_LONG(argI), j = PyLong_AS_LONG(argJ);
 #else
   if (PyInt_Check(argI) && PyInt_Check(argJ)) {
-    int i = PyInt_AS_LONG(argI), j = PyInt_AS_LONG(argJ);
+    int_t i = PyInt_AS_LONG(argI), j = PyInt_AS_LONG(argJ);
 #endif
+    if ((i == -1 || j == -1) && PyErr_Occurred()) return NULL;
     if ( OUT_RNG(i, self->nrows) || OUT_RNG(j, self->ncols))
       PY_ERR(PyExc_IndexError, "index out of range");
 
@@ -1319,6 +1322,10 @@ matrix_set_size(matrix *self, PyObject *value, void *closure)
 
   int m = PyLong_AS_LONG(PyTuple_GET_ITEM(value, 0));
   int n = PyLong_AS_LONG(PyTuple_GET_ITEM(value, 1));
+  if (PyErr_Occurred()) return -1;
+  if (m != PyLong_AS_LONG(PyTuple_GET_ITEM(value, 0)) ||
+      n != PyLong_AS_LONG(PyTuple_GET_ITEM(value, 1)))
+    PY_ERR_INT(PyExc_OverflowError, "dimensions are too large");
 #else
   if (!PyInt_Check(PyTuple_GET_ITEM(value, 0)) ||
       !PyInt_Check(PyTuple_GET_ITEM(value, 1)))
